@@ -384,7 +384,7 @@ def write_replay(prop, seed, n, viol, script_text, extra=None):
     d = os.path.join(REPLAYS, "%s-%s-%d" % (prop, seed, n))
     os.makedirs(d, exist_ok=True)
     with open(os.path.join(d, "script.txt"), "w") as f:
-        whole = script_text is not None and "\nPAR\n" in script_text
+        whole = script_text is not None and ("\nPAR\n" in script_text or viol.get("kind") in ("history-dependence", "nondeterminism"))
         f.write(closure(script_text, viol["id"]) if viol.get("id") is not None and script_text and not whole else (script_text or ""))
     meta = dict(property=prop, seed=seed, violation=viol)
     if extra:
